@@ -167,10 +167,13 @@ func corrCreds(seed uint64, n int, tier string, out string, replay string) {
 	rep.Write(out, m)
 }
 
+// relIndexURL: how a relative chart URL is spelled in the index
+var relIndexURL = "dl/foo-1.0.0.tgz"
+
 func indexFor(chartURL string, relative bool) string {
 	u := chartURL
 	if relative {
-		u = "dl/foo-1.0.0.tgz"
+		u = relIndexURL
 	}
 	return fmt.Sprintf("apiVersion: v1\nentries:\n  foo:\n  - name: foo\n    version: 1.0.0\n    apiVersion: v2\n    urls:\n    - %q\n", u)
 }
@@ -317,6 +320,14 @@ func credsPull(m *Model, rep *Report, cp *capture, tmp, repoURL, chartURL string
 func credsManager(m *Model, rep *Report, cp *capture, tmp string, r *Rng, repoURL, chartURL string, relative, passAll bool, seed uint64, idx int) {
 	cs := map[string]any{"path": "manager", "repoURL": repoURL, "chartURL": chartURL, "passAll": passAll, "relative": relative}
 	repos := []map[string]any{{"name": "r", "url": repoURL, "user": "user", "pass": "secret", "passAll": passAll}}
+	relEff := "/dl/foo-1.0.0.tgz"
+	if relative && (idx/5)%2 == 1 {
+		// a network-path reference: the dependency manager joins index URLs without a scheme onto the repository
+		// URL as paths, so this stays on the repository's host
+		relIndexURL, relEff = "//evil.test/dl/foo-1.0.0.tgz", "/evil.test/dl/foo-1.0.0.tgz"
+		cs["indexURL"] = relIndexURL
+		defer func() { relIndexURL = "dl/foo-1.0.0.tgz" }()
+	}
 	indexes := map[string]string{"r": indexFor(chartURL, relative)}
 	foreignOwner := false
 	if !relative && !strings.EqualFold(hostOf(chartURL), hostOf(repoURL)) && r.Chance(50) {
@@ -338,7 +349,7 @@ func credsManager(m *Model, rep *Report, cp *capture, tmp string, r *Rng, repoUR
 	reqs := cp.take()
 	eff := chartURL
 	if relative {
-		eff = strings.TrimSuffix(repoURL, "/") + "/dl/foo-1.0.0.tgz"
+		eff = strings.TrimSuffix(repoURL, "/") + relEff
 	}
 	owner := any(nil)
 	if foreignOwner {
